@@ -419,5 +419,45 @@ func runCaseVariants() (sig, detail string) {
 			return "case-variant:required-parameter-not-reported-missing:" + in, fmt.Sprint(err)
 		}
 	}
+	// the same name in another location is another parameter: a required path-level parameter is not
+	// overridden by an operation parameter that only shares its name
+	locs := []string{"query", "header", "cookie"}
+	for _, pathLevel := range locs {
+		for _, opLevel := range locs {
+			if pathLevel == opLevel {
+				continue
+			}
+			item := &openapi3.PathItem{Parameters: openapi3.Parameters{{Value: &openapi3.Parameter{Name: "version", In: pathLevel, Required: true, Schema: openapi3.NewIntegerSchema().WithMin(1).NewRef()}}}}
+			op := openapi3.NewOperation()
+			op.Parameters = openapi3.Parameters{{Value: &openapi3.Parameter{Name: "version", In: opLevel, Schema: openapi3.NewIntegerSchema().NewRef()}}}
+			op.Responses = openapi3.NewResponses()
+			item.Get = op
+			doc := &openapi3.T{OpenAPI: "3.0.0", Info: &openapi3.Info{Title: "t", Version: "1"}, Paths: openapi3.NewPaths()}
+			route := &routers.Route{Spec: doc, Path: "/p", PathItem: item, Method: "GET", Operation: op}
+			for _, carried := range []string{"", "0", "abc", "3"} {
+				req := httptest.NewRequest("GET", "/p", nil)
+				set := func(in, v string) {
+					switch in {
+					case "query":
+						q := req.URL.Query()
+						q.Set("version", v)
+						req.URL.RawQuery = q.Encode()
+					case "header":
+						req.Header.Set("version", v)
+					default:
+						req.AddCookie(&http.Cookie{Name: "version", Value: v})
+					}
+				}
+				set(opLevel, "7")
+				if carried != "" {
+					set(pathLevel, carried)
+				}
+				err := openapi3filter.ValidateRequest(context.Background(), &openapi3filter.RequestValidationInput{Request: req, Route: route})
+				if (err == nil) != (carried == "3") {
+					return "case-variant:same-name-in-another-location:" + pathLevel + "-vs-" + opLevel, fmt.Sprintf("required path-level %s parameter version (integer, minimum 1) carried as %q next to an operation-level %s parameter version: %v", pathLevel, carried, opLevel, err)
+				}
+			}
+		}
+	}
 	return "", ""
 }
